@@ -644,6 +644,8 @@ def _verify_lemma(self, name, L):
                     missing = [f for f in facts[cl.nm] if f not in self.named_facts]
                     if missing: raise StaleContract('lemma %s: unknown fact %s' % (name, missing))
                     hy = [self.named_facts[f] for f in facts[cl.nm]]
+                    # vacuity guard for a proof from named facts: those facts must be satisfiable together
+                    self.vcs.append(VC('cover/facts-of/%s' % cl.nm, list(hy), z3.BoolVal(False), 'cover', 0, self.fn.key, expect='sat'))
                 self.vcs.append(VC('goal/%s/%s' % (g[1].split(':')[1], cl.nm), hy, ev_clause(cl), 'lemma', 0, self.fn.key))
         else:
             nm, src = g[0], g[1]
@@ -653,6 +655,8 @@ def _verify_lemma(self, name, L):
                 missing = [f for f in g[3] if f not in self.named_facts]
                 if missing: raise StaleContract('lemma %s: unknown fact %s' % (name, missing))
                 hyps = [self.named_facts[f] for f in g[3]]
+                if L.get('cover_named_facts'):      # vacuity guard for a proof from named facts: those facts must be satisfiable together
+                    self.vcs.append(VC('cover/facts-of/' + nm, list(hyps), z3.BoolVal(False), 'cover', 0, self.fn.key, expect='sat'))
             self.vcs.append(VC('goal/' + nm, hyps, t, 'lemma', 0, self.fn.key))
             if len(g) > 2 and g[2] == 'then-assume':      # a chain: later goals may use earlier ones
                 p.assume(t); self.named_facts[nm] = t
